@@ -1,0 +1,10 @@
+//go:build verif
+
+package verifapi
+
+import "github.com/WICG/webpackage/go/signedexchange/internal/bigendian"
+
+var (
+	EncodeBytesUint  = bigendian.EncodeBytesUint
+	Decode3BytesUint = bigendian.Decode3BytesUint
+)
